@@ -33,6 +33,9 @@ type HistOpt struct {
 	// scaleLeft, when set by History(), is the number of scale shapes one history may still use: the
 	// shapes do not pile up in one history (which would only measure the harness's memory)
 	scaleLeft *int
+	// lastAfter, when set by History(), remembers per table the last full after image written: a later
+	// UPDATE / DELETE of that table may carry it, byte for byte, as its before image (the history of one row)
+	lastAfter map[int][]hist.Value
 }
 
 // DefaultHistOpt is the C01 shape.
@@ -248,6 +251,38 @@ func RowsEvent(t *rapid.T, tables []hist.Table, ti int, ck *clock, o HistOpt) hi
 		}
 		r.Rows = append(r.Rows, row)
 	}
+	full := func(p []bool) bool {
+		for _, b := range p {
+			if !b {
+				return false
+			}
+		}
+		return len(p) > 0
+	}
+	for i := range r.Rows {
+		row := &r.Rows[i]
+		// the row that was written last comes back as the before image of this change
+		if prev, ok := o.lastAfter[ti]; ok && r.Kind != 0 && full(r.Present1) && rapid.Bool().Draw(t, "before_is_last_after") {
+			row.Before = append([]hist.Value{}, prev...)
+		}
+		// a TIMESTAMP column set by NOW() / ON UPDATE CURRENT_TIMESTAMP holds the second of the event that logs it
+		for _, img := range [][]hist.Value{row.Before, row.After} {
+			for c := range img {
+				if ct := tbl.Cols[c].Type; (ct == refenc.TTimestamp || ct == refenc.TTimestamp2) && !img[c].Null && rapid.IntRange(0, 2).Draw(t, "ts_is_now") == 0 {
+					img[c].U, img[c].Us = uint64(r.TS), 0
+				}
+			}
+		}
+		if o.lastAfter != nil && r.Kind != 2 {
+			pa := r.Present1
+			if r.Kind == 1 {
+				pa = r.Present2
+			}
+			if full(pa) {
+				o.lastAfter[ti] = append([]hist.Value{}, row.After...)
+			}
+		}
+	}
 	if (o.Scale || o.ScaleRows) && len(r.Rows) > 0 && (o.scaleLeft == nil || *o.scaleLeft > 0) && rapid.IntRange(0, 39).Draw(t, "big_rows_event") == 0 {
 		// one rows event with more than a thousand rows (what a bulk statement produces)
 		small := true
@@ -299,7 +334,8 @@ func sqlTail(t *rapid.T) string {
 	default:
 		body = string(refenc.Blob{K: rapid.IntRange(3, 7).Draw(t, "sql_tail_bk"), S: rapid.Uint32().Draw(t, "sql_tail_bs"), N: rapid.IntRange(0, 300).Draw(t, "sql_tail_n")}.Bytes())
 	}
-	return " /* " + body + " */"
+	// (a statement text may also simply end in white space)
+	return " /* " + body + " */" + rapid.SampledFrom([]string{"", "", "", " ", "\n", "\t\r\n", "  "}).Draw(t, "sql_trailing_ws")
 }
 
 func rowsItem(t *rapid.T, tables []hist.Table, ck *clock, o HistOpt) hist.Item {
@@ -431,6 +467,7 @@ func Config(t *rapid.T) hist.Cfg {
 func History(t *rapid.T, o HistOpt) *hist.History {
 	budget := 1
 	o.scaleLeft = &budget
+	o.lastAfter = map[int][]hist.Value{}
 	if strconv.IntSize == 32 {
 		// a 32-bit process has 3 GiB of address space: the scale shapes stay with the 64-bit shards
 		o.Scale, o.ScaleTx, o.ScaleRows, o.ManyTables = false, false, false, 0
@@ -599,6 +636,9 @@ func History(t *rapid.T, o HistOpt) *hist.History {
 				h.Units = append(h.Units, hist.Unit{Kind: hist.UFileEnd, NextFile: fname(fileNo), FlipChecksum: flip})
 			default:
 				h.Units = append(h.Units, hist.Unit{Kind: hist.URotate, NextFile: fname(fileNo), TS: ck.tick(t), FlipChecksum: flip})
+			}
+			if !flip && rapid.IntRange(0, 9).Draw(t, "rot_undef_checksum") == 0 {
+				h.Units[len(h.Units)-1].UndefChecksum = true
 			}
 			if gtidMode != 0 && rapid.Bool().Draw(t, "prev_after_rot") {
 				h.Units = append(h.Units, prevGTIDs())
